@@ -119,6 +119,65 @@ Definition hy_final (combined : list (Z * Z)) (k : Z) : list (Z * Z) * nat :=
   let full := isort (fun p => - F64.key (snd p)) combined in
   (full, if Z.of_nat (length full) <=? k then length full else Z.to_nat k).
 
+(** the sub-requests a hybrid request issues to its vector / text sub-index *)
+Definition hy_vreq (p : params) (rq : hyrequest) (docids : list Z) : request :=
+  {| r_queries := [hq_vec rq]; r_nodes := []; r_docids := docids; r_k := hq_k rq;
+     r_thr := if F32.gtb (hq_thr rq) F32.zero then hq_thr rq else F32.zero;
+     r_agg := hq_agg rq; r_cutoff := hq_cutoff rq;
+     r_nprobes := if 0 <? hq_nprobes rq then hq_nprobes rq else Z.sqrt (p_nlist p) |}.
+Definition hy_treq (rq : hyrequest) (docids : list Z) : brequest :=
+  {| q_queries := hq_txt rq; q_nodes := []; q_nodeq := []; q_docids := docids;
+     q_k := hq_k rq; q_agg := hq_agg rq; q_cutoff := hq_cutoff rq; q_ln := hq_ln rq |}.
+
+Definition hy_vq (rq : hyrequest) : bool := negb (match hq_vec rq with [] => true | _ => false end).
+Definition hy_tq (rq : hyrequest) : bool := negb (match hq_txt rq with [] => true | _ => false end).
+
+(** vector modality: (results, weak, (tie-closed candidate ids, candidates known)) *)
+Definition hy_vpart (s : hystate) (rq : hyrequest) (docids : list Z) : res (list (Z * Z) * bool * (list Z * bool)) :=
+  if hy_vq rq then
+    match hy_vec s with
+    | None => Err E_NOTCONFIGURED
+    | Some vs =>
+        match execute (hy_p s) vs (hy_vreq (hy_p s) rq docids) with
+        | Err e => Err e
+        | Ok xo => match xo_n xo with
+                   | None => Err E_PANIC
+                   | Some n => Ok (firstn n (xo_agg xo), xo_ptie xo || xo_tie xo || cut_tie32 (xo_agg xo) n,
+                                   (map fst (tie_closed32 (if xo_single xo then xo_aggfull xo else xo_agg xo) n),
+                                    negb (xo_ptie xo) && (xo_single xo || negb (xo_tie xo))))
+                   end
+        end
+    end
+  else Ok ([], false, ([], true)).
+
+(** text modality (None = no oracle for some token) *)
+Definition hy_tpart (s : hystate) (rq : hyrequest) (docids : list Z) : option (res (list (Z * Z) * bool * (list Z * bool))) :=
+  if hy_tq rq then
+    match hy_txt s with
+    | None => Some (Err E_NOTCONFIGURED)
+    | Some bs =>
+        match bexecute bs (hy_treq rq docids) with
+        | BNoOracle => None
+        | BErr e => Some (Err e)
+        | BOk xo => match xo_n xo with
+                    | None => Some (Err E_PANIC)
+                    | Some n => Some (Ok (firstn n (xo_agg xo), xo_tie xo || cut_tie32 (xo_agg xo) n,
+                                          (map fst (tie_closed32 (if xo_single xo then xo_aggfull xo else xo_agg xo) n),
+                                           xo_single xo || negb (xo_tie xo))))
+                    end
+        end
+    end
+  else Some (Ok ([], false, ([], true))).
+
+(** fusion of the two modalities' answers (float32 scores widened to float64), or the single
+    modality's answer, or score 1 for every candidate of a metadata-only query *)
+Definition hy_combined (rq : hyrequest) (docids : list Z) (vl tl : list (Z * Z)) : list (Z * Z) :=
+  let vm := map (fun p => (fst p, f32_to_f64 (snd p))) vl in
+  let tm := map (fun p => (fst p, f32_to_f64 (snd p))) tl in
+  if hy_vq rq && hy_tq rq then fuse (hq_fusion rq) (hq_vw rq) (hq_tw rq) (hq_kk rq) vm tm
+  else if hy_vq rq then vm else if hy_tq rq then tm
+  else map (fun id => (id, F64.one)) docids.
+
 Definition hy_search (s : hystate) (rq : hyrequest) : hyres :=
   let filtered := match hq_filters rq, hq_groups rq with [], [] => false | _, _ => true end in
   let cands : option (option (list Z)) :=      (* None = error *)
@@ -134,63 +193,18 @@ Definition hy_search (s : hystate) (rq : hyrequest) : hyres :=
   | Some (Some []) => HOk {| ho_full := []; ho_n := O; ho_weak := false; ho_cands := Some []; ho_vecids := []; ho_txtids := []; ho_modal_known := true |}
   | Some co =>
       let docids := match co with Some l => l | None => [] end in
-      let vq := negb (match hq_vec rq with [] => true | _ => false end) in
-      let tq := negb (match hq_txt rq with [] => true | _ => false end) in
-      (* vector modality *)
-      let vres : res (list (Z * Z) * bool * (list Z * bool)) :=
-          if vq then
-            match hy_vec s with
-            | None => Err E_NOTCONFIGURED
-            | Some vs =>
-                let p := hy_p s in
-                let np := if 0 <? hq_nprobes rq then hq_nprobes rq else Z.sqrt (p_nlist p) in
-                match execute p vs {| r_queries := [hq_vec rq]; r_nodes := []; r_docids := docids; r_k := hq_k rq;
-                                      r_thr := if F32.gtb (hq_thr rq) F32.zero then hq_thr rq else F32.zero;
-                                      r_agg := hq_agg rq; r_cutoff := hq_cutoff rq; r_nprobes := np |} with
-                | Err e => Err e
-                | Ok xo => match xo_n xo with
-                           | None => Err E_PANIC
-                           | Some n => Ok (firstn n (xo_agg xo), xo_ptie xo || xo_tie xo || cut_tie32 (xo_agg xo) n,
-                                           (map fst (tie_closed32 (if xo_single xo then xo_aggfull xo else xo_agg xo) n),
-                                            negb (xo_ptie xo) && (xo_single xo || negb (xo_tie xo))))
-                           end
-                end
-            end
-          else Ok ([], false, ([], true)) in
-      match vres with
+      match hy_vpart s rq docids with
       | Err e => HErr e
       | Ok (vl, vweak, (vids, vknown)) =>
-          let tres : option (res (list (Z * Z) * bool * (list Z * bool))) :=
-              if tq then
-                match hy_txt s with
-                | None => Some (Err E_NOTCONFIGURED)
-                | Some bs =>
-                    match bexecute bs {| q_queries := hq_txt rq; q_nodes := []; q_nodeq := []; q_docids := docids;
-                                         q_k := hq_k rq; q_agg := hq_agg rq; q_cutoff := hq_cutoff rq; q_ln := hq_ln rq |} with
-                    | BNoOracle => None
-                    | BErr e => Some (Err e)
-                    | BOk xo => match xo_n xo with
-                                | None => Some (Err E_PANIC)
-                                | Some n => Some (Ok (firstn n (xo_agg xo), xo_tie xo || cut_tie32 (xo_agg xo) n,
-                                                 (map fst (tie_closed32 (if xo_single xo then xo_aggfull xo else xo_agg xo) n),
-                                                  xo_single xo || negb (xo_tie xo))))
-                                end
-                    end
-                end
-              else Some (Ok ([], false, ([], true))) in
-          match tres with
+          match hy_tpart s rq docids with
           | None => HNoOracle
           | Some (Err e) => HErr e
           | Some (Ok (tl, tweak, (tids, tknown))) =>
               let vm := map (fun p => (fst p, f32_to_f64 (snd p))) vl in
               let tm := map (fun p => (fst p, f32_to_f64 (snd p))) tl in
-              let combined :=
-                  if vq && tq then fuse (hq_fusion rq) (hq_vw rq) (hq_tw rq) (hq_kk rq) vm tm
-                  else if vq then vm else if tq then tm
-                  else map (fun id => (id, F64.one)) docids in
               let rrfweak := match hq_fusion rq with
-                             | FRRF => vq && tq && (has_dup_keys64 vm || has_dup_keys64 tm) | _ => false end in
-              let '(full, n) := hy_final combined (hq_k rq) in
+                             | FRRF => hy_vq rq && hy_tq rq && (has_dup_keys64 vm || has_dup_keys64 tm) | _ => false end in
+              let '(full, n) := hy_final (hy_combined rq docids vl tl) (hq_k rq) in
               HOk {| ho_full := full; ho_n := n; ho_weak := vweak || tweak || rrfweak; ho_cands := co;
                      ho_vecids := vids; ho_txtids := tids; ho_modal_known := vknown && tknown |}
           end
